@@ -12,8 +12,9 @@ for sd in seeds:
     pid = sd.split("_")[0]
     meta = json.load(open(f"{d}/meta.json"))
     patch = f"{d}/patch.diff"
-    if os.path.exists(f"{d}/patch_rebased.diff"):
-        patch = f"{d}/patch_rebased.diff"
+    for alt in ("patch_rebased.diff", "patch_rebased2.diff"):  # rebased onto later repairs of /repo (the latest wins)
+        if os.path.exists(f"{d}/{alt}"):
+            patch = f"{d}/{alt}"
     ap = subprocess.run(f"git -C /repo apply {patch}", shell=True, capture_output=True, text=True)
     if ap.returncode != 0:
         meta["detected_by"] = {"applies_to_fixed_tree": False, "error": ap.stderr[-300:]}
